@@ -129,7 +129,7 @@ func init() {
 		core.RunLeg(c, core.Leg[engCase]{
 			Name: "R", Kind: "oracle(rewrites on/off)",
 			Rule: "patterns as C03 leg N (random full-syntax ASTs incl. loop-followed-by-X, shared-prefix alternations, nested atomic groups, lookbehind, conditionals; harvested literals); each pattern is compiled twice, normally and with the verif switch that disables auto-atomic loops, ending-backtracking removal, bump-along markers, alternation prefix extraction and atomic-alternation reordering/trimming; the naive scan of both compilations (span + all captures) must agree at every start offset of inputs ≤ 10 runes (else at the drawn offset), and the normal accelerated find must agree with them. non-trivial = the two programs differ (a rewrite applied) and the input is non-empty",
-			N: c.N(8000, 400000), Corpus: engCorpus, Gen: g.next, Check: c05Check, Batch: 4000,
+			N:    c.N(8000, 400000), Corpus: engCorpus, Gen: g.next, Check: c05Check, Batch: 4000,
 		})
 		core.RunLeg(c, core.Leg[engCase]{
 			Name: "KF2", Kind: "oracle(probe)",
